@@ -7,6 +7,7 @@ require github.com/markkurossi/mpc v0.0.0
 require (
 	github.com/markkurossi/crypto v0.0.0-20240520115340-daed3f9a1082 // indirect
 	github.com/markkurossi/tabulate v0.0.0-20251126123558-a08056f6160f // indirect
+	github.com/markkurossi/text v0.0.0-20250315092940-9a5813bf8efa // indirect
 	golang.org/x/text v0.32.0 // indirect
 )
 
